@@ -163,6 +163,13 @@ void check_matching_mul_sizes(const vec_basic &vec)
         if (is_false(match)) {
             throw DomainError("Matrix dimension mismatch");
         }
+        if (is_a<IdentityMatrix>(*vec[i]) && is_a<Integer>(*first_size.second)) {
+            // An identity does not change the dimension. Keep the known
+            // integer instead of the possibly symbolic size of the identity,
+            // so that the factors around it are still checked against each
+            // other (the identity is dropped from the product)
+            continue;
+        }
         first_size = second_size;
     }
 }
